@@ -13,6 +13,7 @@
 import PdshVerif.Opt.Settings
 import PdshVerif.Opt.Spec
 import PdshVerif.Opt.Lemmas
+import PdshVerif.Opt.Accept
 
 namespace PdshVerif.C18
 open PdshVerif PdshVerif.Opt
@@ -280,6 +281,236 @@ theorem never_hangs {fx : Fixes} {d : Defaults} {p : Pers} {env : Env} {argv : L
   simp [runTerminates]
   omega
 
+
+/-! ## valid settings are accepted and take effect -/
+
+/-- every numeric variable the environment sets is in canonical valid form -/
+def envValid (env : Env) : Prop :=
+  (∀ t, getenv env "FANOUT" = some t → validNum 1 t) ∧
+  (∀ t, getenv env "PDSH_CONNECT_TIMEOUT" = some t → validNum 0 t) ∧
+  (∀ t, getenv env "PDSH_COMMAND_TIMEOUT" = some t → validNum 0 t)
+
+/-- the transport in force: command line, else environment, else the first loaded module of the ranking -/
+def rcmdInForce (d : Defaults) (env : Env) (toks : List Tok) : Option Str :=
+  lastArg 'R' toks <|> getenv env "PDSH_RCMD_TYPE" <|> defaultRcmd d
+
+/-- the connect time-out in force -/
+def ctmoInForce (fx : Fixes) (env : Env) (toks : List Tok) : Int :=
+  pick ((lastArg 't' toks).map (convT fx)) ((getenv env "PDSH_CONNECT_TIMEOUT").map (convS fx)) CONNECT_TIMEOUT
+
+/-- ACCEPTS VALID (every variant of the code, unchanged or repaired): a command line whose options are all known
+    (`wf`), each given in valid form (`goodOpt`: fanout a plain decimal in 1..INT_MAX, time-outs plain decimals in
+    0..INT_MAX, user name within the limit, no option that ends the program or switches to another mode), with a
+    target list, an environment whose numeric variables are valid, a transport in force that is loaded, not the
+    documented exec / connect-time-out conflict, and (pdcp) at least two operands, is ACCEPTED. -/
+theorem accepts_valid (fx : Fixes) (d : Defaults) (p : Pers) (env : Env) (opts : List OptW) (operands : List Str)
+    (hwf : ∀ o ∈ opts, o.wf (optstring p)) (hgood : ∀ o ∈ opts, goodOpt fx d o) (henv : envValid env)
+    (hw : ∃ o ∈ opts, o.ch = 'w')
+    (hrcmd : ∃ n, rcmdInForce d env (opts.map OptW.tok) = some n ∧ n ∈ d.rcmdModules)
+    (hexec : execLoaded d = true → rcmdInForce d env (opts.map OptW.tok) = some "exec".toList →
+      ctmoInForce fx env (opts.map OptW.tok) = CONNECT_TIMEOUT)
+    (hops : p.isPcp = true → operands.length ≥ 2) :
+    ∃ c, effective fx d p env (render opts operands) = .ok c := by
+  have hg := getopt_render (optstring p) opts operands hwf
+  obtain ⟨toks, htoks⟩ : ∃ toks, toks = opts.map OptW.tok := ⟨_, rfl⟩
+  rw [← htoks] at hg hrcmd hexec
+  obtain ⟨hef, hect, heut⟩ := henv
+  -- opt_env
+  obtain ⟨c1, he⟩ : ∃ c1, optEnv fx p env (optDefault d) = .ok c1 := by
+    unfold optEnv
+    rw [envNum_valid fx env "FANOUT" _ 1 hef, envNum_valid fx env "PDSH_CONNECT_TIMEOUT" _ 0 hect,
+      envNum_valid fx env "PDSH_COMMAND_TIMEOUT" _ 0 heut]
+    exact ⟨_, rfl⟩
+  obtain ⟨f, ct, ut, hf, hct, hut, hc1⟩ := optEnv_ok he
+  -- opt_args
+  have hmem : ∀ t ∈ toks, ∃ o ∈ opts, o.tok = t := by
+    intro t ht; rw [htoks] at ht; obtain ⟨o, ho, rfl⟩ := List.mem_map.mp ht; exact ⟨o, ho, rfl⟩
+  have hnoexit : ∀ t ∈ toks, ∀ n, action fx d t ≠ .exit n := by
+    intro t ht; obtain ⟨o, ho, rfl⟩ := hmem t ht; exact (good_action fx d o (hgood o ho)).1
+  have hflags : ∀ t ∈ toks, ∀ fl, action fx d t = .flag fl → fl = .S ∨ fl = .k ∨ fl = .q ∨ fl = .w := by
+    intro t ht; obtain ⟨o, ho, rfl⟩ := hmem t ht; exact (good_action fx d o (hgood o ho)).2
+  obtain ⟨c3, ha⟩ := applyToks_ok_of_no_exit fx d p toks hnoexit (optArgsEarly c1 toks)
+  have e2 := optArgsEarly_other c1 toks
+  have k1 := applyToks_field fx d p (·.fanout) _ (fun c t c1 => step_fanout fx d p c c1 t) toks _ _ ha
+  have k2 := applyToks_field fx d p (·.connectTimeout) _ (fun c t c1 => step_ctmo fx d p c c1 t) toks _ _ ha
+  have k3 := applyToks_field fx d p (·.commandTimeout) _ (fun c t c1 => step_utmo fx d p c c1 t) toks _ _ ha
+  have k5 := applyToks_field fx d p (·.rcmdName) _ (fun c t c1 => step_rcmd fx d p c c1 t) toks _ _ ha
+  simp only [lastSome_argOf] at k1 k2 k3 k5
+  obtain ⟨g1, g2, g3, g4⟩ := applyToks_flags fx d p toks hflags _ _ ha
+  rw [e2] at k1 k2 k3 k5 g1 g2 g3
+  have hwc : c3.hasWcoll = true := by
+    apply g4
+    right
+    obtain ⟨o, ho, hch⟩ := hw
+    refine ⟨o.tok, by rw [htoks]; exact List.mem_map.mpr ⟨o, ho, rfl⟩, ?_⟩
+    unfold OptW.tok action
+    simp [hch, caseOf_w]
+  subst hc1
+  simp only [optDefault] at k1 k2 k3 k5 g1 g2 g3
+  -- the values
+  have v1 := (envNum_ok hf).1
+  have v2 := (envNum_ok hct).1
+  have v3 := (envNum_ok hut).1
+  simp only [optDefault] at v1 v2 v3
+  have argValid : ∀ ch a, lastArg ch toks = some a → ∃ o ∈ opts, o.ch = ch ∧ o.arg.getD [] = a := by
+    intro ch a h; rw [htoks] at h; exact lastArg_map_tok h
+  have hfan : c3.fanout ≥ 1 := by
+    rw [k1]
+    cases hla : lastArg 'f' toks with
+    | some a =>
+      obtain ⟨o, ho, hch, harg⟩ := argValid 'f' a hla
+      have hgo := hgood o ho
+      unfold goodOpt at hgo
+      rw [hch, caseOf_f] at hgo
+      simp only [harg] at hgo
+      have := hgo.2.1
+      simp [validNum_stringToInt fx hgo] <;> omega
+    | none =>
+      simp only [Option.map_none, Option.getD_none, v1]
+      cases hge : getenv env "FANOUT" with
+      | none => simp [Option.elim] <;> decide
+      | some t =>
+        have hv := hef t hge
+        have := hv.2.1
+        simp [Option.elim, convEnv, validNum_stringToInt fx hv] <;> omega
+  have hctv : c3.connectTimeout = ctmoInForce fx env toks := by
+    rw [k2, v2]
+    unfold ctmoInForce
+    cases lastArg 't' toks <;> cases getenv env "PDSH_CONNECT_TIMEOUT" <;> simp [pick, convS, convT, convEnv]
+  have hct0 : c3.connectTimeout ≥ 0 := by
+    rw [k2]
+    cases hla : lastArg 't' toks with
+    | some a =>
+      obtain ⟨o, ho, hch, harg⟩ := argValid 't' a hla
+      have hgo := hgood o ho
+      unfold goodOpt at hgo
+      rw [hch, caseOf_t] at hgo
+      simp only [harg] at hgo
+      simp [validNum_timeoutArg fx hgo] <;> omega
+    | none =>
+      simp only [Option.map_none, Option.getD_none, v2]
+      cases hge : getenv env "PDSH_CONNECT_TIMEOUT" with
+      | none => simp [Option.elim] <;> decide
+      | some t =>
+        have hv := hect t hge
+        simp [Option.elim, convEnv, validNum_stringToInt fx hv] <;> omega
+  have hut0 : c3.commandTimeout ≥ 0 := by
+    rw [k3]
+    cases hla : lastArg 'u' toks with
+    | some a =>
+      obtain ⟨o, ho, hch, harg⟩ := argValid 'u' a hla
+      have hgo := hgood o ho
+      unfold goodOpt at hgo
+      rw [hch, caseOf_u] at hgo
+      simp only [harg] at hgo
+      simp [validNum_timeoutArg fx hgo] <;> omega
+    | none =>
+      simp only [Option.map_none, Option.getD_none, v3]
+      cases hge : getenv env "PDSH_COMMAND_TIMEOUT" with
+      | none => simp [Option.elim]
+      | some t =>
+        have hv := heut t hge
+        simp [Option.elim, convEnv, validNum_stringToInt fx hv] <;> omega
+  -- the transport
+  obtain ⟨n, hn, hnm⟩ := hrcmd
+  have hname : (c3.rcmdName <|> defaultRcmd d) = some n := by
+    rw [k5, ← hn]
+    unfold rcmdInForce
+    cases lastArg 'R' toks <;> cases getenv env "PDSH_RCMD_TYPE" <;> simp
+  obtain ⟨c4, hp4, hc4⟩ : ∃ c4, postArgs d c3 = .ok c4 ∧ c4 = { c3 with rcmdName := some n } := by
+    unfold postArgs
+    simp only [hname, hnm, if_true]
+    exact ⟨_, rfl, rfl⟩
+  -- opt_verify
+  have hver : optVerify fx d p c4 operands.length = true := by
+    subst hc4
+    unfold optVerify
+    simp only [g2, g3, g1, hwc, Bool.not_false, Bool.and_self, Bool.not_true, Bool.false_or, Bool.true_and,
+      Bool.and_eq_true, Bool.or_eq_true, decide_eq_true_eq, Bool.not_eq_true', Bool.and_true]
+    refine ⟨⟨?_, ⟨⟨hct0, hut0⟩, Or.inr hfan⟩⟩, ?_⟩
+    · by_cases hx : execLoaded d = true
+      · by_cases hnx : n = "exec".toList
+        · subst hnx
+          have := hexec hx hn
+          simp [hctv, this]
+        · have hd : decide (some n = some "exec".toList) = false :=
+            decide_eq_false (fun h => hnx (Option.some.inj h))
+          rw [hd]
+          simp
+      · simp [hx]
+    · by_cases hpcp : p.isPcp = true
+      · right; exact hops hpcp
+      · left; simpa using hpcp
+  refine ⟨c4, ?_⟩
+  unfold effective
+  simp only [he, hg, ha, hp4, hver, if_true]
+
+/-- TAKES THE VALUE GIVEN: in that accepted run every numeric setting IS the number written — the argument of the
+    last occurrence of its option, else its environment variable, else the default — and the textual settings are
+    the texts themselves (`precedence`); no truncation, wrap or clamp can interfere with valid values, in any
+    variant of the code. -/
+theorem takes_value_given {fx : Fixes} {d : Defaults} {p : Pers} {env : Env} {opts : List OptW}
+    {operands : List Str} {c : Cfg}
+    (hwf : ∀ o ∈ opts, o.wf (optstring p)) (hgood : ∀ o ∈ opts, goodOpt fx d o) (henv : envValid env)
+    (h : effective fx d p env (render opts operands) = .ok c) :
+    c.fanout = pick ((lastArg 'f' (opts.map OptW.tok)).map fun a => (CInt.digitsVal a : Int))
+                    ((getenv env "FANOUT").map fun a => (CInt.digitsVal a : Int)) DFLT_FANOUT ∧
+    c.connectTimeout = pick ((lastArg 't' (opts.map OptW.tok)).map fun a => (CInt.digitsVal a : Int))
+                    ((getenv env "PDSH_CONNECT_TIMEOUT").map fun a => (CInt.digitsVal a : Int)) CONNECT_TIMEOUT ∧
+    c.commandTimeout = pick ((lastArg 'u' (opts.map OptW.tok)).map fun a => (CInt.digitsVal a : Int))
+                    ((getenv env "PDSH_COMMAND_TIMEOUT").map fun a => (CInt.digitsVal a : Int)) 0 ∧
+    c.ruser = pick (lastArg 'l' (opts.map OptW.tok)) none d.luser ∧
+    c.rcmdName = rcmdInForce d env (opts.map OptW.tok) ∧
+    c.miscModules = (lastArg 'M' (opts.map OptW.tok) <|> getenv env "PDSH_MISC_MODULES") ∧
+    c.remotePath = pick (lastArg 'e' (opts.map OptW.tok))
+                    (if p.isPcp then getenv env "PDSH_REMOTE_PDCP_PATH" else none) d.progPath := by
+  obtain ⟨a1, a2, a3, a4, a5, a6, a7⟩ := precedence h
+  rw [getopt_render (optstring p) opts operands hwf] at a1 a2 a3 a4 a5 a6 a7
+  simp only at a1 a2 a3 a4 a5 a6 a7
+  obtain ⟨hef, hect, heut⟩ := henv
+  have argGood : ∀ ch a, lastArg ch (opts.map OptW.tok) = some a → ∃ o ∈ opts, o.ch = ch ∧ o.arg.getD [] = a :=
+    fun ch a h => lastArg_map_tok h
+  refine ⟨?_, ?_, ?_, a4, a5, a6, a7⟩
+  · rw [a1]
+    cases hla : lastArg 'f' (opts.map OptW.tok) with
+    | some a =>
+      obtain ⟨o, ho, hch, harg⟩ := argGood 'f' a hla
+      have hgo := hgood o ho
+      unfold goodOpt at hgo
+      rw [hch, caseOf_f] at hgo
+      simp only [harg] at hgo
+      simp [pick, convS, validNum_stringToInt fx hgo]
+    | none =>
+      cases hge : getenv env "FANOUT" with
+      | none => simp [pick]
+      | some t => simp [pick, convS, validNum_stringToInt fx (hef t hge)]
+  · rw [a2]
+    cases hla : lastArg 't' (opts.map OptW.tok) with
+    | some a =>
+      obtain ⟨o, ho, hch, harg⟩ := argGood 't' a hla
+      have hgo := hgood o ho
+      unfold goodOpt at hgo
+      rw [hch, caseOf_t] at hgo
+      simp only [harg] at hgo
+      simp [pick, convT, validNum_timeoutArg fx hgo]
+    | none =>
+      cases hge : getenv env "PDSH_CONNECT_TIMEOUT" with
+      | none => simp [pick]
+      | some t => simp [pick, convS, validNum_stringToInt fx (hect t hge)]
+  · rw [a3]
+    cases hla : lastArg 'u' (opts.map OptW.tok) with
+    | some a =>
+      obtain ⟨o, ho, hch, harg⟩ := argGood 'u' a hla
+      have hgo := hgood o ho
+      unfold goodOpt at hgo
+      rw [hch, caseOf_u] at hgo
+      simp only [harg] at hgo
+      simp [pick, convT, validNum_timeoutArg fx hgo]
+    | none =>
+      cases hge : getenv env "PDSH_COMMAND_TIMEOUT" with
+      | none => simp [pick]
+      | some t => simp [pick, convS, validNum_stringToInt fx (heut t hge)]
+
 /-! ## the unchanged code: kernel-checked counterexamples -/
 
 def d0 : Defaults := ⟨"root".toList, 256, "/p".toList, ["exec".toList, "rsh".toList]⟩
@@ -334,6 +565,13 @@ theorem d_option_unchanged_false :
 example : ∃ c, effective Fixes.all d0 .dsh [("FANOUT".toList, "8".toList), ("PDSH_RCMD_TYPE".toList, "rsh".toList)]
     (words ["-Nf", "3", "-R", "exec", "-u7", "-w", "h", "--", "cmd"]) = .ok c ∧ c.fanout = 3 ∧
     c.rcmdName = some "exec".toList ∧ c.commandTimeout = 7 ∧ c.pcpServer = false ∧ c.pcpClient = false := by
+  refine ⟨_, rfl, ?_⟩
+  decide
+
+/-- the hypotheses of `accepts_valid` are satisfiable by a non-trivial command line and environment -/
+example : ∃ c, effective Fixes.none d0 .dsh [("FANOUT".toList, "8".toList)]
+    (render [⟨'N', none⟩, ⟨'f', some "3".toList⟩, ⟨'R', some "exec".toList⟩, ⟨'u', some "7".toList⟩,
+             ⟨'w', some "h".toList⟩] [ "cmd".toList ]) = .ok c ∧ c.fanout = 3 ∧ c.commandTimeout = 7 := by
   refine ⟨_, rfl, ?_⟩
   decide
 
